@@ -943,40 +943,34 @@ def _time_iszero(I, st, args):
 def _time_zone(I, st, args):
     a = args[0]
     F = _time_funcs()
+    loc = a[2]
+    if type(loc) is Opaque and loc.kind == 'fixedzone':
+        return Tup((loc.data[0], loc.data[1]))
     return Tup((Str(), F['z'](tobv(a[0], 64), tobv(a[1], 64))))
 
 
-@model('strings.Fields')
-def _strings_fields(I, st, args):
-    s = args[0]
+@model('time.FixedZone')
+def _time_fixedzone(I, st, args):
+    return Opaque('fixedzone', (args[0], args[1]))
 
-    def rec(st_, pos, start, parts):
-        # start: index where the current field began, or None between fields
-        while pos < len(s):
-            b = s[pos]
-            if not is_sym(b) and b < 0x80:
-                sp = b in (9, 10, 11, 12, 13, 32)
-                if sp and start is not None:
-                    parts = parts + [Str(s[start:pos])]
-                    start = None
-                elif not sp and start is None:
-                    start = pos
-                pos += 1
-                continue
-            alts = []
-            for c, r, w in I.decode_rune(s, pos):
-                spc = is_space_rune(r)
 
-                def k_space(s2, pos=pos, w=w, start=start, parts=parts):
-                    p2 = parts + [Str(s[start:pos])] if start is not None else parts
-                    return rec(s2, pos + w, None, p2)
+@model('(time.Time).In')
+def _time_in(I, st, args):
+    a, loc = args
+    if loc is None:
+        raise GoPanic('time: missing Location in call to Time.In')
+    return Struct((a[0], a[1], loc))
 
-                def k_text(s2, pos=pos, w=w, start=start, parts=parts):
-                    return rec(s2, pos + w, start if start is not None else pos, parts)
-                alts.append((mk_and([c, spc]), k_space))
-                alts.append((mk_and([c, mk_not(spc)]), k_text))
-            return ('alts', alts)
-        if start is not None:
-            parts = parts + [Str(s[start:])]
-        return I.new_slice(st_, 'string', parts) if parts else None
-    return rec(st, 0, None, [])
+
+@model('(time.Time).UTC')
+def _time_utc(I, st, args):
+    a = args[0]
+    return Struct((a[0], a[1], Opaque('fixedzone', (mkstr('UTC'), 0))))
+
+
+def time_zone_term(layout, text):
+    """the zone offset term of the instant time.Parse(layout, text) yields"""
+    F = _time_funcs()
+    a, la = _enc_text(mkstr(layout))
+    b, lb = _enc_text(mkstr(text))
+    return F['z'](F['w'](a, la, b, lb), F['e'](a, la, b, lb))
